@@ -21,6 +21,10 @@
 #include <fcntl.h>
 #include <sys/stat.h>
 
+extern "C" {
+extern struct randombytes_implementation randombytes_internal_implementation;
+}
+
 using namespace sim;
 
 namespace {
@@ -41,6 +45,9 @@ struct Ambient {
 
 bool g_kernel_mode = false;      // the byte stream is served through getrandom()/read() instead of the vtable
 bool g_getrandom_enosys = false; // kernel without getrandom(): forces the /dev/urandom path
+bool g_internal = false;         // the opt-in internal generator (ChaCha20-based, keyed from the kernel) is the installed source
+bool g_getentropy_enosys = false;
+uint64_t g_tod = 0;
 Rng g_kfault;                    // kernel fault decisions (seeded from the plan)
 unsigned g_kfault_pct = 0;
 std::map<std::string, uint64_t> g_kfaults_fired;
@@ -63,7 +70,14 @@ ssize_t h_getrandom(void *buf, size_t n, unsigned) {
     kernel_serve(buf, n);
     return (ssize_t) n;
 }
-int h_getentropy(void *buf, size_t n) { AMB.hit("getentropy"); AMB.rng.fill(buf, n); return 0; }
+int h_getentropy(void *buf, size_t n) {
+    if (g_internal) {
+        if (g_getentropy_enosys) { errno = ENOSYS; return -1; }
+        kernel_serve(buf, n);
+        return 0;
+    }
+    AMB.hit("getentropy"); AMB.rng.fill(buf, n); return 0;
+}
 int h_open(const char *path, int flags, mode_t) {
     bool ur = strcmp(path, "/dev/urandom") == 0, rd = strcmp(path, "/dev/random") == 0;
     if (!ur && !rd) { errno = ENOENT; return -1; }
@@ -103,8 +117,11 @@ int h_poll(struct pollfd *p, nfds_t n, int) {
     for (nfds_t i = 0; i < n; i++) p[i].revents = POLLIN;
     return (int) n;
 }
-int h_gettimeofday(struct timeval *tv, void *) { AMB.hit("gettimeofday"); tv->tv_sec = (time_t) (1700000000 + AMB.rng.below(1000000)); tv->tv_usec = (suseconds_t) AMB.rng.below(1000000); return 0; }
-pid_t h_getpid(void) { AMB.hit("getpid"); return (pid_t) (1000 + AMB.rng.below(30000)); }
+int h_gettimeofday(struct timeval *tv, void *) {
+    // the internal generator uses the time of day as the nonce of its stream: part of the simulated kernel there
+    if (g_internal) { tv->tv_sec = 1700000000; tv->tv_usec = (suseconds_t) (++g_tod); return 0; }
+    AMB.hit("gettimeofday"); tv->tv_sec = (time_t) (1700000000 + AMB.rng.below(1000000)); tv->tv_usec = (suseconds_t) AMB.rng.below(1000000); return 0; }
+pid_t h_getpid(void) { if (g_internal) return 4242; AMB.hit("getpid"); return (pid_t) (1000 + AMB.rng.below(30000)); }
 time_t h_time(time_t *t) { AMB.hit("time"); time_t v = (time_t) (1700000000 + AMB.rng.below(1000000)); if (t) *t = v; return v; }
 int h_clock_gettime(clockid_t, struct timespec *ts) { AMB.hit("clock_gettime"); ts->tv_sec = (time_t) (1700000000 + AMB.rng.below(1000000)); ts->tv_nsec = (long) AMB.rng.below(1000000000); return 0; }
 uint32_t h_arc4random(void) { AMB.hit("arc4random"); return AMB.rng.u32(); }
@@ -159,8 +176,8 @@ struct Exec {
     const PlanT &plan;
     Result res;
     Digest dg;
-    bool kernel;
-    explicit Exec(const PlanT &p) : plan(p), kernel(p.pk.at("source").str() != "scripted") {}
+    bool kernel, internal;
+    explicit Exec(const PlanT &p) : plan(p), kernel(p.pk.at("source").str() != "scripted"), internal(p.pk.at("source").str().compare(0, 8, "internal") == 0) {}
 
     size_t secret_len(const Op &op) {
         switch (op.kind) {
@@ -328,6 +345,8 @@ struct Exec {
         g_src.reset(0x5717);
         { LibScope l; randombytes_stir(); }
         g_src.reset(mix64(plan.content_seed, 0xfa11));
+        if (internal) // the first 32 bytes the kernel serves in this run become the generator's key (stir below)
+            for (size_t i = 0; i < 32; i++) g_src.script.push_back((unsigned char) mix64(plan.content_seed, 0x1e7 + i));
         for (auto &op : plan.ops) g_src.script.insert(g_src.script.end(), op.seg.begin(), op.seg.end());
         if (flip_pos >= 0) {
             while (g_src.script.size() <= (size_t) flip_pos) g_src.script.push_back(g_src.byte_at(g_src.script.size()));
@@ -337,6 +356,8 @@ struct Exec {
         AMB.reset(ambient_seed);
         g_kfault.seed(mix64(plan.content_seed, 0xfa17));
         g_kfault_pct = kernel ? plan.kfault_pct : 0;
+        g_tod = 0;
+        if (internal) { LibScope l; randombytes_stir(); }
         for (auto &op : plan.ops) {
             OpOut o;
             o.start = g_src.pos; o.req_first = g_src.log.size();
@@ -405,6 +426,19 @@ struct Exec {
                 break;
             }
             size_t need = secret_len(op);
+            if (internal) {
+                // the generator is a DRBG keyed from the kernel: operations do not consume kernel bytes themselves.
+                // What must hold: results in range, and no two random outputs of one execution are equal (key
+                // ratchet / nonce progress) -- checked below over the whole execution.
+                if (op.kind == K_UNIFORM) {
+                    uint32_t got; memcpy(&got, o.out.data(), 4);
+                    if ((op.arg < 2 && got != 0) || (op.arg >= 2 && got >= op.arg)) res.fail("uniform-out-of-range", "uniform/internal", "uniform(" + std::to_string(op.arg) + ") returned " + std::to_string(got), (int) i);
+                }
+                if (op.kind == K_DETERMINISTIC) res.count("probe.deterministic_checked");
+                if (need && o.end < 32)
+                    res.fail("generator-not-keyed", "internal", std::string(kind_name[op.kind]) + ": the internal generator produced output although the (simulated) kernel has served it only " + std::to_string(o.end) + " bytes since it was last stirred; its 32-byte key cannot have come from the entropy source", (int) i);
+                continue;
+            }
             if (need && o.end - o.start < need) {
                 res.fail("secret-not-covered", kind_name[op.kind], std::string(kind_name[op.kind]) + " requested " + std::to_string(o.end - o.start) + " bytes from the source for a " + std::to_string(need) + "-byte secret", (int) i);
                 break;
@@ -423,6 +457,21 @@ struct Exec {
             if ((op.kind == K_SCALAR_ED || op.kind == K_SCALAR_RIS) && o.end - o.start > 32) { res.count("probe.scalar_random_resample", (o.end - o.start) / 32 - 1); any_adversarial = true; }
             if (op.kind == K_UNIFORM && o.end - o.start > 4) any_adversarial = true;
         }
+        if (!res.violated && internal) {
+            // no output of the generator may repeat within one execution
+            std::map<std::string, size_t> seen;
+            for (size_t i = 0; i < plan.ops.size() && !res.violated; i++) {
+                const Op &op = plan.ops[i];
+                const OpOut &o = base.ops[i];
+                if (!secret_len(op) || op.kind == K_PWHASH_STR || op.kind == K_SCRYPT_STR || o.out.size() < 16) continue;
+                size_t take = op.kind == K_SEAL || op.kind == K_SEALX ? 32 : std::min<size_t>(o.out.size(), 32);
+                std::string key((const char *) o.out.data(), take);
+                auto it = seen.find(key);
+                if (it != seen.end()) res.fail("generator-output-repeats", std::string(kind_name[op.kind]), std::string(kind_name[op.kind]) + " (op " + std::to_string(i) + ") produced the same bytes as op " + std::to_string(it->second) + " of the same execution", (int) i);
+                seen[key] = i;
+            }
+            res.count("probe.internal_no_repeat_checked");
+        }
         if (!res.violated) {
             // replay: same stream, different ambient values, different pre-fill
             SeqResult rep = run_seq(mix64(plan.content_seed, 2), 0x55, -1, 0);
@@ -431,6 +480,7 @@ struct Exec {
                 const OpOut &a = base.ops[i], &b = rep.ops[i];
                 bool same_reqs = a.start == b.start && a.end == b.end && (a.req_last - a.req_first) == (b.req_last - b.req_first);
                 if (a.out != b.out || a.rc != b.rc || !same_reqs) {
+                    if (getenv("C18_DEBUG")) fprintf(stderr, "DBG op %zu base[%zu,%zu) reqs %zu out %s | replay[%zu,%zu) reqs %zu out %s\n", i, a.start, a.end, a.req_last - a.req_first, hexbytes(a.out.data(), std::min<size_t>(a.out.size(), 16)).c_str(), b.start, b.end, b.req_last - b.req_first, hexbytes(b.out.data(), std::min<size_t>(b.out.size(), 16)).c_str());
                     const char *cls = (a.ambient_calls || b.ambient_calls) ? "depends-on-ambient-source" : "not-reproducible";
                     std::string det = std::string(kind_name[plan.ops[i].kind]) + ": replaying the same source bytes (other pre-fill, other ambient values) gave " +
                                       (a.out != b.out ? "different output" : !same_reqs ? "a different request pattern" : "a different return code");
@@ -446,7 +496,20 @@ struct Exec {
             const Op &op = plan.ops[fi];
             size_t need = secret_len(op);
             const OpOut &a = base.ops[fi];
-            if (need && a.end - a.start >= need) {
+            if (internal && need && a.out.size() >= 16) {
+                // flip one bit of the generator's key (the first 32 bytes this run's kernel served): every later
+                // output must change
+                // the key in force for this op = the last 32 bytes the kernel served up to the end of the op (a stir or a
+                // close earlier in the sequence, or a re-stir inside the op itself, re-keys the generator)
+                size_t key_end = a.end;
+                if (key_end < 32) { res.fail("generator-not-keyed", std::string(kind_name[op.kind]) + "/internal", "the internal generator produced output although the kernel has served it only " + std::to_string(key_end) + " bytes in this execution (a key is 32 bytes)", (int) fi); }
+                SeqResult fl = res.violated ? base : run_seq(mix64(plan.content_seed, 1), 0xAA, (long) (key_end - 32 + plan.flip_bit % 32), (plan.flip_bit / 32) % 8);
+                g_kfaults_fired.clear();
+                any_adversarial = true;
+                res.count("probe.flip_checked");
+                if (!res.violated && fl.ops[fi].out == a.out)
+                    res.fail("secret-ignores-source-bytes", std::string(kind_name[op.kind]) + "/internal", std::string(kind_name[op.kind]) + ": flipping a bit of the 32 key bytes the kernel served to the internal generator did not change the result", (int) fi);
+            } else if (!internal && need && a.end - a.start >= need) {
                 // where the secret's bytes sit in the consumed range: scalars keep the LAST draw (earlier ones were
                 // rejected); everything else asks for its secret first (scrypt_str asks for output pre-fill afterwards)
                 size_t sec0 = (op.kind == K_SCALAR_ED || op.kind == K_SCALAR_RIS) ? a.end - need : a.start;
@@ -484,7 +547,7 @@ struct C18 {
         return "seeded plans of 1-20 generating operations (every *_keygen found in the public headers, box/kx/sign key pairs, secretstream init_push, box_seal (both), "
                "pwhash_str (4 forms), scrypt_str, ed25519/ristretto255 random points and scalars, randombytes_uniform/random/buf/buf_deterministic, stir, close) "
                "sharing one byte stream that is served either by a scripted randombytes_implementation or by a simulated kernel under the built-in default source "
-               "(getrandom or /dev/urandom with EINTR/EAGAIN/short reads). uniform draws are placed at 2^32 mod n +-1, scalar draws at L, L+-1, 0, 2^253-1. Each plan is "
+               "(getrandom or /dev/urandom with EINTR/EAGAIN/short reads), or feeds the opt-in internal generator through getentropy or /dev/urandom. uniform draws are placed at 2^32 mod n +-1, scalar draws at L, L+-1, 0, 2^253-1. Each plan is "
                "executed 3x (base / replay with other ambient values and pre-fill / one secret bit flipped). non-trivial = a rejected draw was served, a kernel fault "
                "fired or a flip was checked; distinct = distinct digests of (ops, outputs, request pattern)";
     }
@@ -500,14 +563,20 @@ struct C18 {
         Json pk = Json::object();
         pk["cpu_disable"] = cpu_masks()[r.below(cpu_masks().size())];
         unsigned c = (unsigned) r.below(10);
-        pk["source"] = c < 6 ? "scripted" : c < 8 ? "kernel_getrandom" : "kernel_devurandom";
+        unsigned c2 = (unsigned) r.below(100);
+        (void) c;
+        pk["source"] = c2 < 50 ? "scripted" : c2 < 68 ? "kernel_getrandom" : c2 < 82 ? "kernel_devurandom" : c2 < 92 ? "internal_getentropy" : "internal_devurandom";
         return pk;
     }
     static void proc_setup(const Json &pk) {
-        _sodium_verif_cpu_disable_mask = (unsigned) pk.at("cpu_disable").u64();
         std::string src = pk.at("source").str();
+        // RDRAND is mixed into the internal generator's key by design: a hardware entropy source the simulator cannot
+        // serve, so it is masked off (the CPU-mask hook) whenever that generator is the installed source
+        _sodium_verif_cpu_disable_mask = (unsigned) pk.at("cpu_disable").u64() | (src.compare(0, 8, "internal") == 0 ? NO_RDRAND : 0u);
         g_kernel_mode = src != "scripted";
-        g_getrandom_enosys = src == "kernel_devurandom";
+        g_getrandom_enosys = src == "kernel_devurandom" || src == "internal_devurandom";
+        g_internal = src.compare(0, 8, "internal") == 0;
+        g_getentropy_enosys = src == "internal_devurandom";
         simos_hooks.getrandom_ = h_getrandom; simos_hooks.getentropy_ = h_getentropy; simos_hooks.open_ = h_open; simos_hooks.read_ = h_read;
         simos_hooks.close_ = h_close; simos_hooks.fstat_ = h_fstat; simos_hooks.fcntl_ = h_fcntl; simos_hooks.poll_ = h_poll;
         simos_hooks.gettimeofday_ = h_gettimeofday; simos_hooks.getpid_ = h_getpid; simos_hooks.time_ = h_time; simos_hooks.clock_gettime_ = h_clock_gettime;
@@ -515,6 +584,7 @@ struct C18 {
         g_src.reset(0xb007);
         AMB.reset(7);
         if (!g_kernel_mode) randombytes_set_implementation(scripted_impl());
+        if (g_internal) randombytes_set_implementation(&randombytes_internal_implementation);
         LibScope l;
         if (sodium_init() < 0) { fprintf(stderr, "sodium_init failed\n"); _exit(3); }
     }
